@@ -9,6 +9,8 @@ pysched (stateless, preemption-bounded exploration of the real threads):
       subproc_captured_object / pipelines (`$(A)`, `!(A)`, `A | B`) with threaded aliases writing
       scripted chunks - ProcProxyThread, CommandPipeline, readers all run for real under the
       scheduler (xv/c06_t2.py).
+  T3  the same path with a REAL child process as final stage (PopenThread, waitpid, pty/pipe channels),
+      single-stepped as a puppet through FIFOs (xv/c06_t3.py, xv/puppet.c).
 Oracle: the bytes delivered == the bytes the final stage was told to write, once and in order; return
 code = final stage's; no deadlock / livelock / exception under any schedule within the bound.
 
@@ -175,13 +177,21 @@ def run(ctx):
         c06_t2 = None
     if c06_t2 is not None:
         t2 = c06_t2.run_part(ctx)
+    t3 = None
+    try:
+        from . import c06_t3
+    except ImportError:
+        c06_t3 = None
+    if c06_t3 is not None:
+        t3 = c06_t3.run_part(ctx)
     ctx.sample({"tier": "T1", "chunks": "two", "consumer": "iterraw", "threads": ["consumer(main)", "writer", "populate_fd_queue"], "preemption_bound": bound})
     ctx.coverage.update(
-        states=len(total["sigs"]) + (t2["states"] if t2 else 0),
-        transitions=total["steps"] + (t2["transitions"] if t2 else 0),
-        traces_validated_against_impl=total["executions"] + (t2["executions"] if t2 else 0),
+        states=len(total["sigs"]) + (t2["states"] if t2 else 0) + (t3["states"] if t3 else 0),
+        transitions=total["steps"] + (t2["transitions"] if t2 else 0) + (t3["transitions"] if t3 else 0),
+        traces_validated_against_impl=total["executions"] + (t2["executions"] if t2 else 0) + (t3["executions"] if t3 else 0),
+        t3=t3["summary"] if t3 else "not run",
         preemption_bound=bound,
-        exhaustive=total["capped"] is None and (t2["exhaustive"] if t2 else True),
+        exhaustive=total["capped"] is None and (t2["exhaustive"] if t2 else True) and (t3["exhaustive"] if t3 else True),
         caps_hit=total["capped"],
         t1_schedules=per,
         t2=t2["summary"] if t2 else "not run",
@@ -197,6 +207,10 @@ def replay(rec):
         from . import c06_t2
 
         return c06_t2.replay(rec)
+    if c.get("tier") == "T3":
+        from . import c06_t3
+
+        return c06_t3.replay(rec)
     _CASE = (c["chunks"], c["consumer"])
     _setup_t1()
     r = pysched.run_once(_body_t1, c.get("schedule", []), _traced_t1(), 5000)
